@@ -329,6 +329,9 @@ func (s *Store[K, V]) GetWithSecodary(key K) (V, bool, error) {
 		// load and store should be atomic
 		shard.mu.Lock()
 		defer shard.mu.Unlock()
+		if shard.closed {
+			return v, &NotFound{}
+		}
 		v, cost, expire, ok, err := s.secondaryCache.Get(key)
 		if err != nil {
 			return v, err
@@ -960,7 +963,15 @@ func (s *Store[K, V]) insertSimple(entry *Entry[K, V]) {
 }
 
 func (s *Store[K, V]) processSecondary() {
-	for item := range s.secondaryCacheBuf {
+	for {
+		var item SecondaryCacheItem[K, V]
+		// the channel is never closed because removeEntry might still send to it,
+		// workers exit when the store is closed.
+		select {
+		case <-s.ctx.Done():
+			return
+		case item = <-s.secondaryCacheBuf:
+		}
 		tk := item.shard.mu.RLock()
 		// first double check key still exists in map,
 		// not exist means key already deleted by Delete API
